@@ -279,6 +279,19 @@ theorem no_deadlock (rank : Nat → Nat) (ths : List ThL) (ho : Ordered rank ths
     exact List.mem_map.mpr ⟨th, hth, by simp [hw]⟩
   omega
 
+/-- the audit of acquisitions implies the hierarchy hypothesis: if every blocked thread's pending
+acquisition passes `acquireOk` for the roles of the locks it holds, the threads are `Ordered`
+for the rank `lock ↦ rank (role lock)` -/
+theorem ordered_of_audit (role : Nat → Role) (ths : List ThL)
+    (h : ∀ th ∈ ths, ∀ w, th.waits = some w → acquireOk (th.holds.map role) (role w) = true) :
+    Ordered (fun l => (role l).rank) ths := by
+  intro th hth w hw l hl
+  have := h th hth w hw
+  unfold acquireOk at this
+  rw [List.all_eq_true] at this
+  have := this (role l) (List.mem_map.mpr ⟨l, hl, rfl⟩)
+  simpa using this
+
 end SC.Conc.Locks
 
 namespace SC.Conc.Bracket
